@@ -454,9 +454,9 @@ Pat/C01CheckProofs.vos Pat/C01CheckProofs.vok Pat/C01CheckProofs.required_vos: P
 Pat/Chain.vo Pat/Chain.glob Pat/Chain.v.beautified Pat/Chain.required_vo: Pat/Chain.v Gen/PatConsts.vo Pat/Syntax.vo Pat/Sem.vo
 Pat/Chain.vio: Pat/Chain.v Gen/PatConsts.vio Pat/Syntax.vio Pat/Sem.vio
 Pat/Chain.vos Pat/Chain.vok Pat/Chain.required_vos: Pat/Chain.v Gen/PatConsts.vos Pat/Syntax.vos Pat/Sem.vos
-Pat/ChainCompleteProofs.vo Pat/ChainCompleteProofs.glob Pat/ChainCompleteProofs.v.beautified Pat/ChainCompleteProofs.required_vo: Pat/ChainCompleteProofs.v Pat/Syntax.vo Pat/MatchList.vo Pat/MatchListProofs.vo Pat/ChainRun.vo Pat/ChainRunProofs.vo
-Pat/ChainCompleteProofs.vio: Pat/ChainCompleteProofs.v Pat/Syntax.vio Pat/MatchList.vio Pat/MatchListProofs.vio Pat/ChainRun.vio Pat/ChainRunProofs.vio
-Pat/ChainCompleteProofs.vos Pat/ChainCompleteProofs.vok Pat/ChainCompleteProofs.required_vos: Pat/ChainCompleteProofs.v Pat/Syntax.vos Pat/MatchList.vos Pat/MatchListProofs.vos Pat/ChainRun.vos Pat/ChainRunProofs.vos
+Pat/ChainCompleteProofs.vo Pat/ChainCompleteProofs.glob Pat/ChainCompleteProofs.v.beautified Pat/ChainCompleteProofs.required_vo: Pat/ChainCompleteProofs.v Pat/Syntax.vo Pat/Sem.vo Pat/Matcher.vo Pat/MatcherProofs.vo Pat/Modifiers.vo Pat/MatchList.vo Pat/MatchListProofs.vo Pat/Chain.vo Pat/ChainProofs.vo Pat/ChainRun.vo Pat/ChainRunProofs.vo
+Pat/ChainCompleteProofs.vio: Pat/ChainCompleteProofs.v Pat/Syntax.vio Pat/Sem.vio Pat/Matcher.vio Pat/MatcherProofs.vio Pat/Modifiers.vio Pat/MatchList.vio Pat/MatchListProofs.vio Pat/Chain.vio Pat/ChainProofs.vio Pat/ChainRun.vio Pat/ChainRunProofs.vio
+Pat/ChainCompleteProofs.vos Pat/ChainCompleteProofs.vok Pat/ChainCompleteProofs.required_vos: Pat/ChainCompleteProofs.v Pat/Syntax.vos Pat/Sem.vos Pat/Matcher.vos Pat/MatcherProofs.vos Pat/Modifiers.vos Pat/MatchList.vos Pat/MatchListProofs.vos Pat/Chain.vos Pat/ChainProofs.vos Pat/ChainRun.vos Pat/ChainRunProofs.vos
 Pat/ChainProofs.vo Pat/ChainProofs.glob Pat/ChainProofs.v.beautified Pat/ChainProofs.required_vo: Pat/ChainProofs.v Gen/PatConsts.vo Pat/Syntax.vo Pat/Sem.vo Pat/Matcher.vo Pat/MatcherProofs.vo Pat/Chain.vo
 Pat/ChainProofs.vio: Pat/ChainProofs.v Gen/PatConsts.vio Pat/Syntax.vio Pat/Sem.vio Pat/Matcher.vio Pat/MatcherProofs.vio Pat/Chain.vio
 Pat/ChainProofs.vos Pat/ChainProofs.vok Pat/ChainProofs.required_vos: Pat/ChainProofs.v Gen/PatConsts.vos Pat/Syntax.vos Pat/Sem.vos Pat/Matcher.vos Pat/MatcherProofs.vos Pat/Chain.vos
@@ -487,6 +487,9 @@ Pat/ModifiersProofs.vos Pat/ModifiersProofs.vok Pat/ModifiersProofs.required_vos
 Pat/Pipeline.vo Pat/Pipeline.glob Pat/Pipeline.v.beautified Pat/Pipeline.required_vo: Pat/Pipeline.v Pat/Syntax.vo Pat/Sem.vo Pat/Matcher.vo Pat/Modifiers.vo Pat/Base64.vo Pat/MatchList.vo Pat/Atoms.vo
 Pat/Pipeline.vio: Pat/Pipeline.v Pat/Syntax.vio Pat/Sem.vio Pat/Matcher.vio Pat/Modifiers.vio Pat/Base64.vio Pat/MatchList.vio Pat/Atoms.vio
 Pat/Pipeline.vos Pat/Pipeline.vok Pat/Pipeline.required_vos: Pat/Pipeline.v Pat/Syntax.vos Pat/Sem.vos Pat/Matcher.vos Pat/Modifiers.vos Pat/Base64.vos Pat/MatchList.vos Pat/Atoms.vos
+Pat/PipelineB64CompleteProofs.vo Pat/PipelineB64CompleteProofs.glob Pat/PipelineB64CompleteProofs.v.beautified Pat/PipelineB64CompleteProofs.required_vo: Pat/PipelineB64CompleteProofs.v Pat/Syntax.vo Pat/Sem.vo Pat/Matcher.vo Pat/Modifiers.vo Pat/ModifiersProofs.vo Pat/Base64.vo Pat/Base64Proofs.vo Pat/MatchList.vo Pat/Atoms.vo Pat/Pipeline.vo Pat/PipelineProofs.vo Pat/PipelineB64Proofs.vo
+Pat/PipelineB64CompleteProofs.vio: Pat/PipelineB64CompleteProofs.v Pat/Syntax.vio Pat/Sem.vio Pat/Matcher.vio Pat/Modifiers.vio Pat/ModifiersProofs.vio Pat/Base64.vio Pat/Base64Proofs.vio Pat/MatchList.vio Pat/Atoms.vio Pat/Pipeline.vio Pat/PipelineProofs.vio Pat/PipelineB64Proofs.vio
+Pat/PipelineB64CompleteProofs.vos Pat/PipelineB64CompleteProofs.vok Pat/PipelineB64CompleteProofs.required_vos: Pat/PipelineB64CompleteProofs.v Pat/Syntax.vos Pat/Sem.vos Pat/Matcher.vos Pat/Modifiers.vos Pat/ModifiersProofs.vos Pat/Base64.vos Pat/Base64Proofs.vos Pat/MatchList.vos Pat/Atoms.vos Pat/Pipeline.vos Pat/PipelineProofs.vos Pat/PipelineB64Proofs.vos
 Pat/PipelineB64Proofs.vo Pat/PipelineB64Proofs.glob Pat/PipelineB64Proofs.v.beautified Pat/PipelineB64Proofs.required_vo: Pat/PipelineB64Proofs.v Pat/Syntax.vo Pat/Sem.vo Pat/Matcher.vo Pat/Modifiers.vo Pat/ModifiersProofs.vo Pat/Base64.vo Pat/MatchList.vo Pat/Atoms.vo Pat/Pipeline.vo Pat/PipelineProofs.vo
 Pat/PipelineB64Proofs.vio: Pat/PipelineB64Proofs.v Pat/Syntax.vio Pat/Sem.vio Pat/Matcher.vio Pat/Modifiers.vio Pat/ModifiersProofs.vio Pat/Base64.vio Pat/MatchList.vio Pat/Atoms.vio Pat/Pipeline.vio Pat/PipelineProofs.vio
 Pat/PipelineB64Proofs.vos Pat/PipelineB64Proofs.vok Pat/PipelineB64Proofs.required_vos: Pat/PipelineB64Proofs.v Pat/Syntax.vos Pat/Sem.vos Pat/Matcher.vos Pat/Modifiers.vos Pat/ModifiersProofs.vos Pat/Base64.vos Pat/MatchList.vos Pat/Atoms.vos Pat/Pipeline.vos Pat/PipelineProofs.vos
